@@ -201,7 +201,7 @@ func runScript(id string, c *config, fixed []string, next func(sc *scr, step int
 	fmt.Fprintf(out, "CASE\t%s\t%s\n", id, c.spec())
 	fmt.Fprintf(out, "NS\t%d\n", sc.lat.VNumSlots())
 	for k := range sc.kb {
-		fmt.Fprintf(out, "SF\t%d\t%d\n", k, sc.lat.VSlotID(sc.kb[k]))
+		fmt.Fprintf(out, "SF\t%d\t%d\t%x\n", k, sc.lat.VSlotID(sc.kb[k]), sc.kb[k])
 	}
 	for i, t := range c.txns {
 		sc.byTS[t.start] = i
